@@ -332,33 +332,33 @@ Proof.
 Qed.
 
 (* ---------- ingest: create the temp file, write, (chmod), close ---------- *)
-Definition ingest_pre (fs : FS) (t : fpath) (cont : list N) : list mstep :=
-  mkdirs fs ++ [Create t] ++ map (fun x => Write t (AChunk x)) cont.
+Definition ingest_pre (fs : FS) (d : N) (t : fpath) (cont : list N) : list mstep :=
+  mkdirs fs d ++ [Create t] ++ map (fun x => Write t (AChunk x)) cont.
 
-Lemma mkdirs_touch fs m p : In m (mkdirs fs) -> ~ touches m p.
+Lemma mkdirs_touch fs d m p : In m (mkdirs fs d) -> ~ touches m p.
 Proof.
   unfold mkdirs. intro Hin. apply in_app_or in Hin.
-  destruct (dirs fs DAlg), (dirs fs DIngest); cbn in Hin;
+  destruct (dirs fs (DAlg (alg_of d))), (dirs fs DIngest); cbn in Hin;
     destruct Hin as [Hin|Hin]; try contradiction;
     destruct Hin as [<-|[]]; cbn; tauto.
 Qed.
 
-Lemma ingest_pre_touch fs t cont m p : In m (ingest_pre fs t cont) -> touches m p -> p = t.
+Lemma ingest_pre_touch fs d t cont m p : In m (ingest_pre fs d t cont) -> touches m p -> p = t.
 Proof.
   unfold ingest_pre. intros Hin Ht. apply in_app_or in Hin as [Hin|Hin].
-  - exfalso. exact (mkdirs_touch fs m p Hin Ht).
+  - exfalso. exact (mkdirs_touch fs d m p Hin Ht).
   - apply in_app_or in Hin as [[<-|[]]|Hin]; [exact Ht|].
     apply in_map_iff in Hin as (x & <- & _). exact Ht.
 Qed.
 
-Lemma ingest_pre_content fs t cont :
+Lemma ingest_pre_content fs d t cont :
   files fs t = None ->
-  files (apply (ingest_pre fs t cont) fs) t = Some (mkFile (map AChunk cont) false).
+  files (apply (ingest_pre fs d t cont) fs) t = Some (mkFile (map AChunk cont) false).
 Proof.
   intro Hn. unfold ingest_pre. rewrite !apply_app.
-  assert (H0 : files (apply (mkdirs fs) fs) t = None).
-  { rewrite apply_frame; [exact Hn|]. intros m Hin. now apply (mkdirs_touch fs). }
-  set (fa := apply (mkdirs fs) fs) in *.
+  assert (H0 : files (apply (mkdirs fs d) fs) t = None).
+  { rewrite apply_frame; [exact Hn|]. intros m Hin. now apply (mkdirs_touch fs d). }
+  set (fa := apply (mkdirs fs d) fs) in *.
   assert (H1 : files (apply [Create t] fa) t = Some (mkFile [] false)).
   { unfold apply. cbn [fold_left apply1]. rewrite H0. cbn [files]. apply upd_same. }
   rewrite (apply_writes t cont _ [] false H1). reflexivity.
@@ -382,7 +382,7 @@ Proof. intros HA HB m Hin. apply in_app_or in Hin as [Hin|Hin]; [now apply HA|no
 Lemma push_bad_safe s d cont :
   Inv s ->
   let t := FIngest d (sctr s) in
-  let ms := ingest_pre (sfs s) t cont ++ [Close t; Unlink t] in
+  let ms := ingest_pre (sfs s) d t cont ++ [Close t; Unlink t] in
   let fs1 := apply ms (sfs s) in
   Inv (mkSt fs1 (stags s) (sdigs s) (S (sctr s))) /\
   (Agree s -> Agree (mkSt fs1 (stags s) (sdigs s) (S (sctr s)))) /\
@@ -391,7 +391,7 @@ Lemma push_bad_safe s d cont :
 Proof.
   intros I t ms fs1.
   assert (HT : only_touch ms t).
-  { apply only_touch_app; [intros m Hin p; now apply (ingest_pre_touch (sfs s) t cont)|].
+  { apply only_touch_app; [intros m Hin p; now apply (ingest_pre_touch (sfs s) d t cont)|].
     intros m [<-|[<-|[]]] p Hp; cbn in Hp; [contradiction|exact Hp]. }
   assert (Ft : files fs1 t = None).
   { unfold fs1, ms. rewrite apply_app. unfold apply at 1. cbn [fold_left apply1 files]. apply upd_same. }
@@ -434,7 +434,7 @@ Lemma push_good_safe s d cont (man : bool) :
   let c := sctr s in
   let t := FIngest d c in
   let digs' := if man then dig_add d (sdigs s) else sdigs s in
-  let A := ingest_pre (sfs s) t cont ++ [Chmod t; Close t] in
+  let A := ingest_pre (sfs s) d t cont ++ [Chmod t; Close t] in
   let IX := if man then idx_steps c (stags s) digs' else [] in
   let ms := A ++ Rename t (FBlob d) :: IX in
   let fs1 := apply ms (sfs s) in
@@ -448,12 +448,12 @@ Proof.
   set (X := mkFile (map AChunk cont) true).
   assert (Htmp : files fs0 t = None) by (exact (inv_temp s I t eq_refl (le_n _))).
   assert (HT : only_touch A t).
-  { apply only_touch_app; [intros m Hin p; now apply (ingest_pre_touch fs0 t cont)|].
+  { apply only_touch_app; [intros m Hin p; now apply (ingest_pre_touch fs0 d t cont)|].
     intros m [<-|[<-|[]]] p Hp; cbn in Hp; [exact Hp|contradiction]. }
   set (fsA := apply A fs0).
   assert (FAt : files fsA t = Some X).
   { unfold fsA, A. rewrite apply_app. unfold apply at 1. cbn [fold_left apply1].
-    rewrite (ingest_pre_content fs0 t cont Htmp). cbn [files fcontent fro]. apply upd_same. }
+    rewrite (ingest_pre_content fs0 d t cont Htmp). cbn [files fcontent fro]. apply upd_same. }
   set (fsB := apply1 fsA (Rename t (FBlob d))).
   assert (FB : forall p, files fsB p = if fpath_eqb p (FBlob d) then Some X else files fs0 p).
   { intro p. unfold fsB. cbn [apply1]. rewrite FAt. cbn [files].
@@ -901,8 +901,8 @@ Proof. intros Hm Hms x [<-|Hin]; [exact Hm|now apply Hms]. Qed.
 Lemma all_tc_app c a e : all_tc c a -> all_tc c e -> all_tc c (a ++ e).
 Proof. intros Ha He m Hin. apply in_app_or in Hin as [Hin|Hin]; [now apply Ha|now apply He]. Qed.
 
-Lemma all_tc_mkdirs c fs : all_tc c (mkdirs fs).
-Proof. intros m Hin p Hp. exfalso. exact (mkdirs_touch fs m p Hin Hp). Qed.
+Lemma all_tc_mkdirs c fs d : all_tc c (mkdirs fs d).
+Proof. intros m Hin p Hp. exfalso. exact (mkdirs_touch fs d m p Hin Hp). Qed.
 
 Lemma all_tc_writes c t cont : temp_ctr t = c -> all_tc c (map (fun x => Write t (AChunk x)) cont).
 Proof. intros Ht m Hin. apply in_map_iff in Hin as (x & <- & _). intros p Hp _. cbn in Hp. now subst p. Qed.
@@ -927,7 +927,7 @@ Ltac tc_solve :=
   repeat match goal with
   | |- all_tc _ [] => apply all_tc_nil
   | |- all_tc _ (index_steps _ _ _ _ _) => apply all_tc_idx
-  | |- all_tc _ (mkdirs _) => apply all_tc_mkdirs
+  | |- all_tc _ (mkdirs _ _) => apply all_tc_mkdirs
   | |- all_tc _ (map _ _) => apply all_tc_writes; reflexivity
   | |- all_tc _ (_ ++ _) => apply all_tc_app
   | |- all_tc _ (_ :: _) => apply all_tc_cons
@@ -1031,10 +1031,10 @@ Lemma all_ipf_cons m ms : in_place_free m -> all_ipf ms -> all_ipf (m :: ms).
 Proof. intros Hm Hms x [<-|Hin]; [exact Hm|now apply Hms]. Qed.
 Lemma all_ipf_app a e : all_ipf a -> all_ipf e -> all_ipf (a ++ e).
 Proof. intros Ha He m Hin. apply in_app_or in Hin as [Hin|Hin]; [now apply Ha|now apply He]. Qed.
-Lemma all_ipf_mkdirs fs : all_ipf (mkdirs fs).
+Lemma all_ipf_mkdirs fs d : all_ipf (mkdirs fs d).
 Proof.
   unfold mkdirs. intros m Hin. apply in_app_or in Hin.
-  destruct (dirs fs DAlg), (dirs fs DIngest); cbn in Hin;
+  destruct (dirs fs (DAlg (alg_of d))), (dirs fs DIngest); cbn in Hin;
     destruct Hin as [Hin|Hin]; try contradiction; destruct Hin as [<-|[]]; exact I.
 Qed.
 Lemma all_ipf_writes t cont : is_temp t = true -> all_ipf (map (fun x => Write t (AChunk x)) cont).
@@ -1049,7 +1049,7 @@ Ltac ipf_solve :=
   repeat match goal with
   | |- all_ipf [] => apply all_ipf_nil
   | |- all_ipf (index_steps _ _ _ _ _) => apply all_ipf_idx
-  | |- all_ipf (mkdirs _) => apply all_ipf_mkdirs
+  | |- all_ipf (mkdirs _ _) => apply all_ipf_mkdirs
   | |- all_ipf (map _ _) => apply all_ipf_writes; reflexivity
   | |- all_ipf (_ ++ _) => apply all_ipf_app
   | |- all_ipf (_ :: _) => apply all_ipf_cons
